@@ -40,6 +40,7 @@ func c16(tier string) []*explore.Scenario {
 	for _, dial := range []string{"fails", "succeeds", "pending"} {
 		out = append(out, c17AttachDuringDial("C16", dial, bound))
 	}
+	out = append(out, c17OpSeqs("C16", tier)...)
 	out = append(out, c16RPC("payloads", true, 0))
 	out = append(out, c16Burst(12, 0), c16Burst(50, 0), c16Burst(24, 1))
 	return out
